@@ -174,18 +174,23 @@ fn scalar_ok(v: &Value) -> bool {
 }
 
 /// the specification's flattening: path -> leaf (scalar / filtered array / {} for an empty object)
-fn oracle_flatten(v: &Value, path: String, out: &mut Vec<(String, Value)>) {
+/// the path of a property is the dot-separated list of the escaped keys leading to it; the root has no path (a key may be
+/// the empty string, so "no path yet" is not the same as the empty path)
+fn oracle_flatten(v: &Value, path: Option<String>, out: &mut Vec<(String, Value)>) {
     match v {
-        Value::Object(m) if m.is_empty() => out.push((path, json!({}))),
+        Value::Object(m) if m.is_empty() => out.push((path.unwrap_or_default(), json!({}))),
         Value::Object(m) => {
             for (k, x) in m {
                 let k = escape_key(k);
-                let p = if path.is_empty() { k } else { format!("{path}.{k}") };
-                oracle_flatten(x, p, out);
+                let p = match &path {
+                    Some(path) => format!("{path}.{k}"),
+                    None => k,
+                };
+                oracle_flatten(x, Some(p), out);
             }
         }
-        Value::Array(a) => out.push((path, Value::Array(a.iter().filter(|x| scalar_ok(x)).cloned().collect()))),
-        x if scalar_ok(x) => out.push((path, x.clone())),
+        Value::Array(a) => out.push((path.unwrap_or_default(), Value::Array(a.iter().filter(|x| scalar_ok(x)).cloned().collect()))),
+        x if scalar_ok(x) => out.push((path.unwrap_or_default(), x.clone())),
         _ => {}
     }
 }
@@ -235,9 +240,15 @@ fn run_flatten() -> (u64, Vec<Value>, Vec<Value>, Vec<Value>) {
             }
         }
     }
-    for o in &objects {
+    // the same objects under a top-level key that is the empty string: {"": {"content": {...}}} has the paths `.content...`,
+    // never the paths `content...` of a real content
+    let mut events: Vec<Value> = objects.iter().map(|o| json!({"sender": "@o:s", "content": o})).collect();
+    for o in objects.iter().step_by(7) {
+        events.push(json!({"sender": "@o:s", "": {"content": o}}));
+        events.push(json!({"sender": "@o:s", "": {"content": {"body": "x", "m.mentions": {"room": true}}}, "content": o}));
+    }
+    for ev in events {
         n += 1;
-        let ev = json!({"sender": "@o:s", "content": o});
         let raw: Raw<Value> = Raw::new(&ev).unwrap();
         let flat = match std::panic::catch_unwind(|| FlattenedJson::from_raw(&raw)) {
             Ok(f) => f,
@@ -247,7 +258,18 @@ fn run_flatten() -> (u64, Vec<Value>, Vec<Value>, Vec<Value>) {
             }
         };
         let mut want = vec![];
-        oracle_flatten(&ev, String::new(), &mut want);
+        oracle_flatten(&ev, None, &mut want);
+        // nothing but the properties of the event is addressable: the keyword and mention conditions on a body that the
+        // real content does not have must not hold
+        if !want.iter().any(|(p, _)| p == "content.body") {
+            let spoof = PushCondition::EventMatch { key: "content.body".to_owned(), pattern: "x".to_owned() }.applies(&flat, &c) || flat.get_str("content.body").is_some();
+            if spoof {
+                fail(&mut f_paths, json!({"event": ev, "path": "content.body", "observed": "addressable although the event has no such property"}));
+            }
+        }
+        if !want.iter().any(|(p, _)| p == "content.m\\.mentions" || p.starts_with("content.m\\.mentions.")) && flat.contains_mentions() {
+            fail(&mut f_paths, json!({"event": ev, "observed": "contains_mentions() although content has no m.mentions"}));
+        }
         for (path, leaf) in &want {
             // EventPropertyIs on scalars, EventPropertyContains on arrays, for every probe value
             for p in &probes {
@@ -509,10 +531,57 @@ pub fn run(tier: &str) -> Report {
             }
         }
     }
-    let n = n + n_edge;
+    // ---- contains_display_name: the display name is not a pattern; it matches as a whole, literally (case-insensitively),
+    // on word boundaries of content.body
+    let (mut n_dn, mut f_dn) = (0u64, vec![]);
+    {
+        let lit_word = |name: &str, body: &str| -> bool {
+            let p = lower(name);
+            let v = lower(body);
+            if p == v {
+                return true;
+            }
+            if p.is_empty() {
+                return false;
+            }
+            let n = v.len();
+            for i in 0..=n {
+                if i + p.len() > n || v[i..i + p.len()] != p[..] {
+                    continue;
+                }
+                let j = i + p.len();
+                let before = i == 0 || !is_word(v[i - 1]) || !is_word(v[i]);
+                let after = j == n || !is_word(v[j]) || !is_word(v[j - 1]);
+                if before && after {
+                    return true;
+                }
+            }
+            false
+        };
+        let names = ["me", "Me", "*", "?", "a*", "a?b", "*a", "a b", "é", "a.b", "**", "a"];
+        let bodies = ["hello me", "some", "me", "a*", "about that", "x a* y", "acb", "a?b", "axb a?b", "*", "hello * there", "?", "what?", "é", "ée é", "a b", "xa b", "a.b", "aXb", "ba", "*a", "",
+            "ME!", "a", "**"];
+        for name in names {
+            let mut c = ctx();
+            c.user_display_name = name.to_owned();
+            for body in bodies {
+                n_dn += 1;
+                let raw: Raw<Value> = Raw::new(&json!({"sender": "@o:s", "content": {"body": body}})).unwrap();
+                let flat = FlattenedJson::from_raw(&raw);
+                let got = std::panic::catch_unwind(std::panic::AssertUnwindSafe(|| PushCondition::ContainsDisplayName.applies(&flat, &c)));
+                let want = lit_word(name, body);
+                match got {
+                    Err(_) => fail(&mut f_panic, json!({"display_name": name, "body": body, "observed": "panic"})),
+                    Ok(g) if g != want => fail(&mut f_dn, json!({"display_name": name, "body": body, "contains_display_name": g, "expected": want})),
+                    _ => {}
+                }
+            }
+        }
+    }
+    let n = n + n_edge + n_dn;
     Report {
         bound: format!(
-            "glob: {} patterns (all of length 1..3 over {{a,B,*,?,space,é}} + {} longer) x {} values (all of length 0..{} over {:?} + longer cases) x {{content.body, other key}}; flattening: {} objects with <= 2 entries over 5 keys x 14 values, 10 probe scalars per path; room_member_count: 6 operators x bounds 0..5 x member counts 0..7; rule selection: 7 per-kind configurations ^ 5 kinds x own/other sender",
+            "glob: {} patterns (all of length 1..3 over {{a,B,*,?,space,é}} + {} longer) x {} values (all of length 0..{} over {:?} + longer cases) x {{content.body, other key}}; flattening: {} objects with <= 2 entries over 5 keys x 14 values, 10 probe scalars per path, also under a top-level empty key; contains_display_name: 12 display names (incl. ones with * and ?) x 25 bodies; room_member_count: 6 operators x bounds 0..5 x member counts 0..7; rule selection: 7 per-kind configurations ^ 5 kinds x own/other sender",
             patterns.len(),
             21,
             values.len(),
@@ -526,6 +595,7 @@ pub fn run(tier: &str) -> Report {
             ("other_keys_glob_matches_the_whole_value", n / 2, f_whole),
             ("flattened_paths_and_scalar_values_match_the_spec", nf, f_paths),
             ("array_contains_sees_every_scalar_element", nf, f_contains),
+            ("display_name_is_matched_literally_on_word_boundaries", n_dn, f_dn),
             ("room_member_count_comparisons_match_the_spec", nm, f_count),
             ("first_enabled_matching_rule_in_kind_and_list_order", ns, f_sel),
             ("pattern_matching_and_flattening_never_panic", n + nf, f_panic),
